@@ -1089,6 +1089,12 @@ def value_origins(cfg, nid, expr, params=(), _depth=0):
                 return None
             tg = st.targets if isinstance(st, ast.Assign) else [st.target]
             val = st.value
+            if len(tg) == 1 and isinstance(tg[0], (ast.Tuple, ast.List)) and isinstance(val, ast.Name) and not any(
+                    val.id in node_local_writes(n_) for n_ in cfg.nodes) and val.id not in params:
+                # a, b = CONSTANT_TUPLE (module level, bound once)
+                mc_ = getattr(getattr(cfg.func, "module", None), "constants", {}).get(val.id)
+                if isinstance(mc_, (ast.Tuple, ast.List)):
+                    val = mc_
             if len(tg) == 1 and isinstance(tg[0], (ast.Tuple, ast.List)) and isinstance(val, (ast.Tuple, ast.List)) and len(tg[0].elts) == len(val.elts):
                 # a, b = x, y (the right-hand sides are evaluated before any target is bound: a swap reads the old values)
                 hit = [v for t, v in zip(tg[0].elts, val.elts) if isinstance(t, ast.Name) and t.id == expr.id]
@@ -1756,6 +1762,31 @@ def given_value_problems(ctx, ci, attr, param=None):
                 if sub and all(is_param(d2, e2) for d2, e2 in sub):
                     continue
             out.append(("the stored value comes from `%s`, not from %s as given" % (norm(e, 70), "the parameter `%s`" % param if param else "a constructor parameter"), f_, node))
+    return out
+
+
+def value_leaves(cfg, nid, expr, params=(), _depth=0):
+    """value_origins, with conditional expressions split into their arms (`a if c else b` contributes the origins of a
+    and of b) and `x or y` / `x and y` into their operands: [(node id, leaf expr)], or None."""
+    if _depth > 6:
+        return None
+    og = value_origins(cfg, nid, expr, params=params)
+    if og is None:
+        return None
+    out = []
+    for d_, e_ in og:
+        if isinstance(e_, ast.IfExp):
+            subs = [e_.body, e_.orelse]
+        elif isinstance(e_, ast.BoolOp):
+            subs = list(e_.values)
+        else:
+            out.append((d_, e_))
+            continue
+        for sub in subs:
+            r_ = value_leaves(cfg, d_, sub, params, _depth + 1) if isinstance(sub, (ast.Name, ast.IfExp, ast.BoolOp)) else [(d_, sub)]
+            if r_ is None:
+                return None
+            out.extend(r_)
     return out
 
 
